@@ -148,6 +148,18 @@ template <class S> static void explore(const std::string& sol, const std::vector
     R.apply(e, 1.3125L, 1.6875L, cz); R.eval_all(cz); R.apply(base, 0, 0, cb); std::string b2 = R.eval_all(cb);
     hist += 4;
     size_t w = sizeof(S) == 8 ? 8 : 10;
+    // purge-and-set-everything histories (base and one-move elements): after [base: all evaluators] the handle is purged and EVERY parameter
+    // is set by hand, one call each, to the element's values -- the workflow of a user who does not trust the defaults.  The values must
+    // be those of the element reached the ordinary way (a cache validated by a modification count comes back to the same count here).
+    if (e.mv.size() <= 1 && n > 0) {
+      R.apply(base, 0, 0, cb); R.eval_all(cb);
+      LD cc[4]; std::vector<LD> want = R.base; for (int k2 = 0; k2 < 4; k2++) cc[k2] = R.c0[k2];
+      for (auto& m : e.mv) { if (m.kind == 0) want[m.idx] = R.base[m.idx] * m.f; else cc[m.idx] = R.c0[m.idx] * m.f; }
+      if (R.iMu >= 0) { S g = (S)want[R.iG]; want[R.iMu] = (LD)((g - 1) / (g + 1)); }
+      masa_purge_default_param<S>(); for (int i = 0; i < n; i++) { masa_set_param<S>(R.names[i], (S)want[i]); R.cur[i] = want[i]; R.sets++; }
+      std::string vp = R.eval_all(cc); hist++;
+      for (size_t k = 0; k < R.ev.size(); k++) if (vp.compare(k * w, w, v1, k * w, w) != 0 && viol < 40) { viol++; fprintf(out, "V\t%s\t%s\t%s/%s\tvalue at element [%s] after [base, purge, every parameter set by hand] differs from the value reached by changing only the moved parameter\n", sol.c_str(), scal, R.ev[k]->name, R.ev[k]->sig, desc(R.names, e).c_str()); }
+    }
     // single-evaluator detours (one-move elements only): [base: all evaluators] -> [e: evaluator k ALONE] -> [base: all evaluators]; hidden state
     // that one evaluator updates only partly is repaired by its siblings in the all-evaluator histories above
     if (e.mv.size() == 1 && R.ev.size() > 1) for (size_t k = 0; k < R.ev.size(); k++) {
